@@ -5,6 +5,7 @@
 package tls
 
 import (
+	"crypto/ecdh"
 	"crypto/mlkem"
 	crand "crypto/rand"
 	"crypto/sha256"
@@ -2916,6 +2917,13 @@ func (uconn *UConn) ApplyPreset(p *ClientHelloSpec) error {
 						// only do this once for the first non-grease curve
 						uconn.HandshakeState.State13.KeyShareKeys.Ecdhe = ecdheKey
 						preferredCurveIsSet = true
+					} else {
+						// keep the keys of the other classical shares too, so that
+						// the server may select any share that was sent
+						if uconn.HandshakeState.State13.KeyShareKeys.EcdheExtra == nil {
+							uconn.HandshakeState.State13.KeyShareKeys.EcdheExtra = make(map[CurveID]*ecdh.PrivateKey)
+						}
+						uconn.HandshakeState.State13.KeyShareKeys.EcdheExtra[curveID] = ecdheKey
 					}
 				}
 			}
